@@ -178,7 +178,7 @@ def _link_trace(ctx, what, props, bins):
 
 def c16(ctx):
     dev, rel = ctx.build("dev"), ctx.build("release")
-    modes = ["value", "struct"] + (["value3"] if ctx.thorough else [])
+    modes = ["value", "struct", "value4"] + (["value3"] if ctx.thorough else [])
     for mode in modes:
         out = ctx.path("lw_%s.nd" % mode)
         ctx.model_check("MC_LinkWrite", env={"MODE": mode, "OUT": out}, workers=8, timeout=900)
@@ -224,6 +224,7 @@ def c07(ctx):
     for b in (dev, rel):
         ctx.replay(b, "exchange", out, {"C07"}, label="exchange-" + os.path.basename(b))
     rm(out)
+    _server(ctx, {"C07"}, bins=(dev, rel))
     for b in (dev, rel):
         tr, info = ctx.record(b, "response", name="response-" + os.path.basename(b))
         ctx.extra["swept_native_not_validated"] = ctx.extra.get("swept_native_not_validated", 0) + int(info.get("swept_native", 0))
@@ -303,16 +304,39 @@ def _scripts(ctx, module, env, props, label, workers=8, bins=None, maxn=None, ex
     rm(out)
 
 
+def _server(ctx, props, bins=None):
+    """growth: the composed server loop over datagrams (Server.tla), end to end on the wire"""
+    bins = bins or (ctx.build("dev"),)
+    out = ctx.path("server-scripts.nd")
+    ctx.model_check("MC_Server", env={"OUT": out}, workers=8, timeout=900, expect_states=1000)
+    jobs = []
+    for b in bins:
+        tr = ctx.path("server-script-trace-%s.ndjson" % os.path.basename(b))
+        info = ctx.harness(b, "rec", "server-script", "--in", out, "--out", tr)
+        ctx.events += int(info.get("events", 0))
+        jobs.append(("Trace_Server", tr, props, "server-scripts-" + os.path.basename(b)))
+        tr2, _ = ctx.record(b, "server", name="server-" + os.path.basename(b))
+        jobs.append(("Trace_Server", tr2, props, "server-" + os.path.basename(b)))
+    ctx.validate_many(jobs)
+    for j in jobs:
+        rm(j[1])
+    rm(out)
+
+
 def c08(ctx):
     size = "full" if ctx.thorough else "small"
     _scripts(ctx, "MC_BlockTransfer", {"MODE": "dl", "SIZE": size}, {"C08"}, "dl")
     _block_traces(ctx, ["block2", "budget"], {"C08"})
+    if ctx.thorough:
+        _server(ctx, {"C08"})
 
 
 def c09(ctx):
     size = "full" if ctx.thorough else "small"
     _scripts(ctx, "MC_BlockTransfer", {"MODE": "ul", "SIZE": size}, {"C09"}, "ul")
     _block_traces(ctx, ["block1", "budget"], {"C09"})
+    if ctx.thorough:
+        _server(ctx, {"C09"})
 
 
 def c10(ctx):
@@ -334,6 +358,7 @@ def c12(ctx):
     size = "full" if ctx.thorough else "small"
     _scripts(ctx, "MC_BlockMulti", {"MODE": "iso", "SIZE": size, "DEPTH": 12}, {"C12"}, "iso")
     _block_traces(ctx, ["isolation"], {"C12"})
+    _server(ctx, {"C12"})
     _block_traces(ctx, ["hostile"], {"C12"}, bins=None if ctx.thorough else (ctx.build("dev"),))
 
 
